@@ -344,6 +344,11 @@ class Lib:
         if full.startswith(target_package + '.'):
             obj = self.pkg
             for part in full[len(target_package) + 1:].split('.'):
-                obj = getattr(obj, part)
+                try:
+                    obj = getattr(obj, part)
+                except AttributeError:
+                    if not hasattr(obj, '__path__'):
+                        raise
+                    obj = importlib.import_module(f'{obj.__name__}.{part}')     # a proto sub-package
             return obj
         return None
